@@ -282,6 +282,10 @@ func (c *Ctx) Finish() int {
 		ev["assumptions"] = []string{}
 	}
 	b, _ := json.MarshalIndent(ev, "", " ")
+	if c.ID == "PROBE" {
+		// the development aid claims nothing and leaves no evidence
+		return 0
+	}
 	os.MkdirAll(filepath.Join(VerifDir, "evidence"), 0o755)
 	if err := os.WriteFile(filepath.Join(VerifDir, "evidence", c.ID+".json"), b, 0o644); err != nil {
 		fmt.Fprintln(os.Stderr, "write evidence:", err)
